@@ -149,7 +149,7 @@ def cli_case(case):
     runner.write_tree(root, files)
     res = {}
     for mode in ("seq", "par"):
-        argv = [case["cmd"], "--format", "json"] + (["--parallel"] if mode == "par" else []) + targets
+        argv = case.get("pre", []) + [case["cmd"], "--format", "json"] + case.get("post", []) + (["--parallel"] if mode == "par" else []) + targets
         r = runner.cli(argv, cwd, timeout=300)
         vs = r.violations()
         res[mode] = {"exit": r.exit, "v": None if vs is None else sorted([v["rule_id"], v["file_path"], v["line"], v["column"], v["message"]] for v in vs),
@@ -249,6 +249,14 @@ def run(ctx):
             tg = rng.choice([["."], ["src"], sorted(proj)])
             cli_cases.append({"files": proj, "config": CONFIG, "cmd": cmd, "targets": tg, "id": "cli:n%d:%s" % (n, cmd), "n": n})
     cli_cases.append({"files": make_project(rng, 20, "cb"), "config": bad_cfg, "cmd": "nesting", "targets": ["."], "id": "cli:invalid-config", "n": 20})
+    # explicit (command- or group-level) --config file that is empty / comments only, while the project root has its own settings
+    for j, (level, content) in enumerate([("cmd", ""), ("cmd", "# nothing configured here\n"), ("group", "{}\n"), ("cmd", "{}")]):
+        proj = make_project(rng, 24, "ec%d" % j)
+        proj["empty_cfg.yaml" if "{" not in content or content.endswith("\n") else "empty_cfg.json"] = content
+        cfgname = "empty_cfg.yaml" if "empty_cfg.yaml" in proj else "empty_cfg.json"
+        cli_cases.append({"files": proj, "config": CONFIG + "nesting:\n  max_nesting_depth: 1\nmagic-numbers:\n  enabled: false\n", "cmd": rng.choice(["nesting", "magic-numbers"]),
+                          "targets": ["src"], "id": "cli:empty-explicit-config:%s:%d" % (level, j), "n": 24,
+                          "pre": ["--config", cfgname] if level == "group" else [], "post": ["--config", cfgname] if level == "cmd" else []})
     # same comparison for projects that live under specially named directories (decided per path, must not differ between modes)
     for j, parent in enumerate(["build", "dist", "venv", "node_modules", "pkg.egg-info", "tests", "plain"] if not ctx.quick else ["build", "node_modules", "tests"]):
         for n in (5, 20):
